@@ -147,6 +147,9 @@ impl DeltaRefresher {
                     continue;
                 }
 
+                #[cfg(sneldb_verif)]
+                crate::verif_hooks::vp("show_delta_appended");
+
                 batch_count += 1;
                 total_rows += batch.len();
 
